@@ -13,29 +13,31 @@ open Nexus.Gen Nexus.Client
     reconciled with it.  A differing hash is not an alarm: it widens the family's run. -/
 def reconciled : List (String × String) := [
   ("isPPTSchemeValid", "6d5d4cf509766a4b999bc15d11ee57bf3da1b03d88fd3ce32b3d46dc1e88e719"),
-  ("unpackPPTPayload", "e70909dbbb3b618061e79b89ef2efb1776e0b39524568a95c502b368b4dfb89c"),
-  ("unpackE2EEPayload", "ceda0104ba5f4495a6a691c60cae3f8cdd52614dba6f4bbe6bd00d70054f8d6b"),
-  ("NewClient", "d53933a34180137194ab92f6f1958cc1f211da359a16d4e88838dc0c61d70489"),
+  ("unpackPPTPayload", "151be02d56e3230299fd864ec77d51351b67b950d696d5aae8ee9b2546162264"),
+  ("unpackE2EEPayload", "147dfeb0a4eb5e097f0bfc6b527d80047941b1bfcc3e108397c5bec04815e6e5"),
+  ("NewClient", "82ca38d0960e0a05166b11517c29caf2cea8f91d94fec9a38820f8743aad9d54"),
   ("Subscribe", "8bef8be78bff9017989c44d357a910420fd7385b63d0f893eac1ae2e36ef1c58"),
   ("Unsubscribe", "c7c016873fcea9b2613661d39b3ad5caa1d25274c606916f02d08db9695c6744"),
   ("Publish", "2e091cb8ca9fc498ddaa6d26f551aa33f98bf8e7afa3d4d8ea935db5b4e88438"),
   ("Register", "3f0655031be8fc96f194d3a73494790af429db79af1f42fab178b33c571f80e3"),
   ("Unregister", "87864c9249a49feff9b2cb85b8d4b4eb52a3c0429c25b9ce6fed591a3e0de668"),
-  ("Call", "d3d6f44b1b481650ab5ce3ec464b73fe8d6b66f4e28cedf18a2a959dcd233236"),
-  ("CallProgressive", "ae2993b545fc95106afd55a41b9f6cbd826ca4ba8175e6bcb718a5d70dfe24c2"),
+  ("Call", "30d09804fdd240f7af84f27163f23fad319ef4fb0e6850d87161392d1c5a746f"),
+  ("CallProgressive", "a4af13420de3c1083fd642c99445598d6f18bc4346ce65f91e64fec271482d62"),
   ("Close", "92c2dcfb49bd1c5e86d1904513eb54a05843dbbc5acdea8ba278e3ec3aa182c4"),
   ("SendProgress", "fce9afbfef19dc1907765fe5b5ba2002d3b983eb052d3f23f2339476b0ac3686"),
-  ("expectReply", "6bdd15ec600d9fbb8c1531eb20c4ccf690900ec87e8579257bff8b653101a50a"),
-  ("waitForReply", "c0347f054ffc8a683f8b37c5eed87824986c449410edb848b368ad3c0ca54551"),
-  ("waitForReplyWithCancel", "b4844c01590e065f53ce25eb32b937f5cb918cf5ac6dd438238588afe903dbb4"),
+  ("expectReply", "9d25bdf59951e21a571e0f0a167e1fe5fc40a5e67d203cba31809b555b65bf04"),
+  ("waitForReply", "6123b5200dcc0efc37328bc9ff302b08fba7bf6d02cb455e4f34c354afcb18dc"),
+  ("waitForReplyWithCancel", "adfaef1da69295f909caff7f573cfc7217e8570835fedba7e0b6c3c11d7fe37e"),
   ("run", "275f8d4606c6c62d02bf35e8ae8cf2f1631091fb933e3116ad67fc8f418a8acf"),
   ("runReceiveFromRouter", "0efc9adef9ad07c535ad6045ddeb3aed03b158ff6c42b694eaeb027e644abd95"),
   ("runHandleEvent", "73a0bef1a1b5822bd8845c002813a3a921f221cc715e30a7121de1211e240cfd"),
-  ("cleanupInvHandlersQueue", "59b2837e45300365c394334e79c2bf47563418e2fa1c4e894dae0d5fdaa5e3da"),
-  ("runHandleInvocation", "29f7995052ea42ad4afd9c2c0fa85337cb287ef2ef009c7c6b236e81cee218de"),
+  ("cleanupInvHandlersQueue", "cd1d30f4500a98dff7d2812a95ca29d7e452e50d0e42ee13fb046dcc2e3052b3"),
+  ("runHandleInvocation", "a8d05af1efa55b5fe997ef42e4421605605bb4b82376a36cb40a4397312adc17"),
   ("runHandleInterrupt", "3eabc72d8c6e3fb7c0c18a587b0e22bd5f45ac6fb933b36e4c99b0848107da76"),
-  ("runSignalReply", "07aa0f0592c0dfef54933b118fb33eff63331a4c187e098adcb956ac27506229"),
-  ("prepareCallResultMessage", "ab06529774d809e8ae28e630e2be4b753e7cafbd7f8d5240434ffcf3ca425e4b")]
+  ("runSignalReply", "cc8f61e832cfd4944e6a99face8c0396bc5f00a4dc83f179bc3ec54eb6bc6e6c"),
+  ("prepareCallResultMessage", "ab06529774d809e8ae28e630e2be4b753e7cafbd7f8d5240434ffcf3ca425e4b"),
+  ("doneWaiting", "e77d0058ea1f939f85986e857dd8fabe7911949f40e9bc3d84d55b8f529153f4"),
+  ("abortSession", "e77b5290542d853fe002b62950101888510b45fe7dc58387b76c46b596516923")]
 
 /-- Modelled functions whose source differs from the reconciled text. -/
 def changedFunctions : List String :=
@@ -43,43 +45,65 @@ def changedFunctions : List String :=
 
 def hashesReconciled : Bool := changedFunctions.isEmpty
 
-/-! ### witnesses -/
+/-! ### witnesses
 
-/-- F16: SUBSCRIBE; the response timer fires; the SUBSCRIBED arrives and `run` looks the waiter
-    up before the waiter has deleted its entry; the waiter deletes the entry and returns
-    ErrReplyTimeout; `run` is left in `w <- msg` for ever.  Then Close: GOODBYE, the router's
-    GOODBYE is never read, EndRecv, `<-c.Done()` for ever. -/
+  The histories that wedged or crashed the client before fixes 710325f, aee6f97 and c166f26, kept
+  as regression witnesses: the theorems of `Nexus.Props.C17` run them through the model as it is
+  instantiated from today's source and show the fixed behaviour; under the old facts they fail
+  as they used to. -/
+
+/-- (F16) SUBSCRIBE; the response timer fires; the SUBSCRIBED arrives and `run` looks the waiter up
+    before the waiter has deleted its entry; the waiter deletes the entry, closes `gone` and returns
+    ErrReplyTimeout.  Before the fix `run` stayed in `w <- msg` for ever; now it takes the `gone`
+    case, and Close (GOODBYE, the router's GOODBYE) returns. -/
 def f16 : List R.Ev := [
   .apiStart 1 .subscribe "t1" false, .apiWait 1,
   .tick 1000, .timeout 1,
   .inject (.subscribed 1 5), .runRecv,
-  .finish 1,
-  .closeStart, .inject (.goodbye [] "wamp.close.goodbye_and_out"), .tick 2000, .closeForce]
+  .finish 1]
 
-/-- The same wedge without any timing: the router answers one SUBSCRIBE twice. -/
+def f16Tail : List R.Ev := [
+  .giveUp,
+  .closeStart, .inject (.goodbye [] "wamp.close.goodbye_and_out"), .runRecv, .closeSeeDone, .closeWorkersDone]
+
+/-- (F16) the same without any timing: the router answers one SUBSCRIBE twice. -/
 def f16dup : List R.Ev := [
   .apiStart 1 .subscribe "t1" false, .apiWait 1,
   .inject (.subscribed 1 5), .inject (.subscribed 1 5),
   .runRecv, .deliver, .runRecv,
-  .finish 1,
-  .closeStart, .tick 2000, .closeForce]
+  .finish 1]
 
-/-- RESULT with `ppt_scheme` from a dealer that did not announce the feature: Call sends ABORT
-    and closes the session's send side; the next send (Close's GOODBYE) is on a closed channel. -/
+/-- (F41) RESULT with `ppt_scheme` from a dealer that did not announce the feature: Call sends ABORT
+    and stops receiving; the loop exits; Close() closes the peer, once. -/
 def pptAbort : List R.Ev := [
   .apiStart 1 .call "p1" false, .apiWait 1,
   .inject (.result 1 [(N.OptPPTScheme, .str "x_a")] [] []), .runRecv, .deliver, .finish 1,
-  .closeStart]
+  .runSeeRecvDone,
+  .closeStart, .closeWorkersDone]
 
 def pptAbortCfg : R.Cfg := { dealerPPT := false }
 
-/-- Three INVOCATIONs with one request id while the handler is still running the first: the
-    second fills the queue, the third blocks `run` in `handlerQueue <- msg`; the INTERRUPT that
-    would end the handler is never read. -/
+/-- (F42) three INVOCATIONs with one request id while the handler is still running the first: the
+    repeats after the final (non-progressive) message are dropped, the loop is not blocked. -/
 def dupInv : List I.Ev := [
   .recvInvocation { req := 1, reg := 9 } true, .innerTake 0,
   .recvInvocation { req := 1, reg := 9 } true,
   .recvInvocation { req := 1, reg := 9 } true]
+
+/-- By design: PROGRESSIVE chunks arriving faster than the handler takes them block the loop in
+    `handlerQueue <- msg` (back-pressure) until the handler returns, the invocation's context ends
+    or the session stops receiving. -/
+def progChunks : List I.Ev :=
+  let chunk : I.Inv := { req := 1, reg := 9, details := [(N.OptProgress, .bool true)] }
+  [.recvInvocation chunk true, .innerTake 0, .recvInvocation chunk true, .recvInvocation chunk true]
+
+/-- (F43, open) a Call is waiting; Close() runs to completion (GOODBYE handshake) and closes the send
+    channel; the Call's context ends and its goroutine takes the ctx.Done branch before it sees
+    Done(): CANCEL is sent on the closed channel. -/
+def closeRace : List R.Ev := [
+  .apiStart 1 .call "p1" false, .apiWait 1,
+  .closeStart, .inject (.goodbye [] "wamp.close.goodbye_and_out"), .runRecv, .closeSeeDone, .closeWorkersDone,
+  .ctxEnd 1 .canceled, .noticeCtx 1]
 
 structure Run where
   log : List Sim.Obs
@@ -101,10 +125,12 @@ def runI (cfg : I.Cfg) (evs : List I.Ev) (scenario : String) : Option Run :=
 
 def run (name : String) : Option Run :=
   match name with
-  | "f16" => runR {} f16 "reply-at-timeout"
-  | "f16dup" => runR {} f16dup "duplicate-reply"
+  | "f16" => runR {} (f16 ++ f16Tail) "reply-at-timeout"
+  | "f16dup" => runR {} (f16dup ++ f16Tail) "duplicate-reply"
   | "pptabort" => runR pptAbortCfg pptAbort "ppt-result-unannounced-then-close"
   | "dupinv" => runI {} dupInv "triple-invocation-same-id"
+  | "progchunks" => runI {} progChunks "progressive-chunks-faster-than-handler"
+  | "closerace" => runR {} closeRace "cancel-after-close"
   | _ => none
 
 end Nexus.Client.Witness
